@@ -6,5 +6,5 @@ id="$1"; prop="$2"; wt="$3"; needs="$4"; shift 4
 tools/seed_intake.py "$id" "$prop" "$wt" "$needs" || exit 1
 for p in "$prop" "$@"; do
   echo "==== $id against $p"
-  tools/altcheck.sh "$wt" "$p" 2>&1 | grep -A5 "^VIOLATION\|seed=\|KNOWN\|inconclusive\|BUILD" | cut -c1-400 | head -14
+  tools/altcheck.sh "$wt" "$p" 2>&1 | grep -a -A5 "^VIOLATION\|seed=\|KNOWN\|inconclusive\|BUILD" | cut -c1-400 | head -14
 done
